@@ -283,7 +283,10 @@ def _smooth(ctx, cases):
                 ok = core.f2b(got[i]) == core.f2b(x[i])
                 what = 'edge/identity point changed'
             else:
-                ok = near(got[i], want[i], sc)
+                # the mean of a window is judged on the scale of THAT window (a sum over the window only cannot be off by more
+                # than a few ulps of its largest sample): an error proportional to samples elsewhere in the array is an error
+                wsc = scale_of([x[min(max(j, 0), n - 1)] for j in range(i - h, i + h + 1)])
+                ok = near(got[i], want[i], wsc)
                 what = 'boxcar mean differs'
             if not ok:
                 sig = 'smooth:%s:%s' % ('identity' if ww < 3 else 'truncate' if trunc else 'plain',
@@ -586,7 +589,16 @@ def _rebin_cases(ctx):
 
     def mk(shape, d, sample, kind, style=None, dtype='float64'):
         n = int(np.prod(shape))
-        x = values(rng, n, style) if dtype == 'float64' else [float(rng.randrange(-50, 200) if dtype != 'uint8' else rng.randrange(0, 256)) for _ in range(n)]
+        if dtype == 'float64':
+            x = values(rng, n, style)
+        elif dtype == 'float32' or rng.random() < 0.5:
+            x = [float(rng.randrange(-50, 200) if dtype != 'uint8' else rng.randrange(0, 256)) for _ in range(n)]
+        else:
+            # the whole range of the integer type: a block average is taken of values whose SUM does not fit the type
+            # (int64: kept below 2^52 so that the float image of the values is exact)
+            info = np.iinfo(dtype)
+            lo, hi = max(int(info.min), -2**52), min(int(info.max), 2**52)
+            x = [float(rng.choice([hi, hi - rng.randrange(0, 50), lo, lo + rng.randrange(0, 50), rng.randrange(lo, hi + 1)])) for _ in range(n)]
         return {'stream': 'rebin', 'kind': kind, 'shape': list(shape), 'x': x, 'd': list(d), 'sample': sample, 'dtype': dtype}
 
     def newdim(s, maxf):
@@ -673,6 +685,15 @@ def _rebin_cases(ctx):
         shape = [rng.randrange(1, 7) for _ in range(nd)]
         d = [newdim(s, 8) for s in shape]
         cases.append(mk(shape, d, rng.random() < 0.5, 'dtype', dtype=rng.choice(['float32', 'int64', 'int32', 'uint8', 'int16'])))
+    # integer block averages (shrink without sample), every integer width
+    for _ in range(ctx.n(60, 1000)):
+        f = rng.choice([2, 2, 3, 4])
+        m = rng.randrange(1, 4)
+        shape, d = [f * m], [m]
+        if rng.random() < 0.4:
+            k = rng.randrange(1, 4)
+            shape, d = shape + [k], d + [k]
+        cases.append(mk(shape, d, False, 'int-shrink', dtype=rng.choice(['int64', 'int32', 'uint8', 'int16', 'uint16', 'int8'])))
     return cases
 
 
